@@ -40,7 +40,10 @@ def meta_for(typ: str) -> dict:
 
 
 def init_token(conn) -> str:
-    return f"init.{conn['src']}.{conn['sa']}"
+    # initial data is a function of (source simulator, source attribute) - the cache stores it per source ENTITY, so the entity is part of it
+    se = conn.get("se", "E0")
+    se = se if isinstance(se, str) else f"E{se}"
+    return f"init.{conn['src']}.{conn['sa']}" if se == "E0" else f"init.{conn['src']}.{conn['sa']}@{se}"
 
 
 def normalize(scn: dict) -> dict:
